@@ -94,6 +94,16 @@ def build(kind):
             env["CARGO_TARGET_DIR"] = os.path.join(TARGET, "cli")
             _cargo(["build", "--offline", "--release", "--bin", "naija"], REPO, env, kind)
             return os.path.join(TARGET, "cli", "release", "naija")
+        if kind == "cli-asan":
+            # the shipped binary with AddressSanitizer and the arena/pool lifetime poisoning hooks
+            env["CARGO_TARGET_DIR"] = os.path.join(TARGET, "cli-asan")
+            env["RUSTFLAGS"] = "-Zsanitizer=address -Cforce-frame-pointers=yes"
+            # the repo's release profile strips symbols and uses fat LTO: keep the symbols for the reports and
+            # skip LTO for build time (same sources and wiring, overridden through the environment only)
+            env.update({"CARGO_PROFILE_RELEASE_STRIP": "none", "CARGO_PROFILE_RELEASE_SPLIT_DEBUGINFO": "off",
+                        "CARGO_PROFILE_RELEASE_LTO": "false", "CARGO_PROFILE_RELEASE_CODEGEN_UNITS": "16"})
+            _cargo(["+nightly", "build", "--offline", "--release", "--bin", "naija", "--features", "verif-asan", "--target", "x86_64-unknown-linux-gnu"], REPO, env, kind)
+            return os.path.join(TARGET, "cli-asan", "x86_64-unknown-linux-gnu", "release", "naija")
         raise ValueError(kind)
     finally:
         lock.close()
